@@ -25,7 +25,11 @@ type Input struct {
 	Cut  int    `json:"cut,omitempty"`  // >0: keep only the first Cut bytes ...
 	Tail int    `json:"tail,omitempty"` // ... and append tail variant Tail (1..) after them
 	Seed uint64 `json:"seed,omitempty"`
+	Lead int    `json:"lead,omitempty"` // >0: that many white-space bytes in front of everything
 }
+
+// leadWS is what Lead bytes are drawn from (mostly blanks).
+const leadWS = " \t \n  \r \f "
 
 // Families lists every family name with a short tag describing what the
 // detection of a member leaves behind in the pooled scratch state.
@@ -194,6 +198,9 @@ func (in Input) String() string {
 	if in.Cut > 0 {
 		s += fmt.Sprintf(",cut=%d,tail=%d", in.Cut, in.Tail)
 	}
+	if in.Lead > 0 {
+		s += fmt.Sprintf(",lead=%d", in.Lead)
+	}
 	return s + ")"
 }
 
@@ -243,6 +250,17 @@ var Tails = [][]byte{
 // Bytes materialises the input.
 func (in Input) Bytes() []byte {
 	b := in.base()
+	if in.Lead > 0 {
+		k := in.Lead
+		if k > 1<<16 {
+			k = 1 << 16
+		}
+		lead := make([]byte, k, k+len(b))
+		for i := range lead {
+			lead[i] = leadWS[(i+k)%len(leadWS)]
+		}
+		b = append(lead, b...)
+	}
 	if in.Cut > 0 {
 		if in.Cut < len(b) {
 			b = b[:in.Cut]
